@@ -412,6 +412,12 @@ func writeReplay(path, prop string, a *AggOutcome, repo string) bool {
 			confirmed = ok
 		}
 	}
+	if !confirmed && a.Witness != nil {
+		if rep, ok := replaySearch(a, repo); rep != "" {
+			fmt.Fprintf(&b, "\n--- search for a replay input against the real code ---\n%s\n", rep)
+			confirmed = ok
+		}
+	}
 	if !confirmed {
 		fmt.Fprintf(&b, "\nno-failing-input-found: the obligation was discharged on the unchanged tree and is not discharged now; no concrete input was replayed\n")
 	}
